@@ -348,6 +348,11 @@ def c06(pid, tier, seed):
         # MultiProgress::new() when stderr is not a terminal
         fam("std_default_pipe_multi", W=10, H=5, Multi=True, MaxBars=2, D=4, BarOps=("tick", "inc", "set_message", "println", "finish", "finish_and_clear", "drop", "mp_remove"), MpOps=("mp_println", "mp_clear", "mp_suspend", "mp_is_hidden"),
             MsgShapes=("a",), TextShapes=("T",), Tpls=("MnC",), Fins=("AndLeave",), Tgt="default_pipe", M0="id", shards=12),
+        # MultiProgress::set_draw_target: a MultiProgress born hidden, shown later, hidden again (what it showed stays as text); silent exactly while hidden
+        fam("hidden_multi_then_shown", W=6, H=12, Multi=True, MaxBars=2, D=5 if q else 6, BarOps=("tick", "inc", "set_message", "finish", "drop"), MpOps=("mp_set_target", "mp_println", "mp_is_hidden"),
+            MsgShapes=("a", "W1"), TextShapes=("T",), Tpls=("MnC",), Fins=("AndLeave",), Tgt="hidden", M0="id", shards=12),
+        fam("shown_multi_then_hidden", W=6, H=12, Multi=True, MaxBars=2, Pre=2, D=5 if q else 6, BarOps=("tick", "set_message", "println", "finish", "drop", "is_hidden"), MpOps=("mp_set_target", "mp_println", "mp_clear"),
+            MsgShapes=("a",), TextShapes=("T",), Tpls=("MnC",), Fins=("AndLeave",), M0="id", shards=12),
         fam("removed_member", W=10, H=8, Multi=True, MaxBars=2, Pre=2, D=5 if q else 7, BarOps=("tick", "inc", "set_message", "println", "finish", "finish_and_clear", "drop", "mp_remove"),
             MpOps=(), MsgShapes=("a",), TextShapes=("T",), Tpls=("MnC",), Fins=("AndLeave",), M0="id", shards=12),
     ]
